@@ -16,7 +16,7 @@
    compute_shortest_distances_matrix (both heap configurations, any admissible queue). *)
 From Coq Require Import List Arith Bool ZArith Permutation.
 From TK Require Import Conn_Model Conn_Spec Conn_Proof Conn_Proof_Main Conn_Proof_Order
-     Conn_Proof_Dijkstra Conn_Proof_Knn.
+     Conn_Proof_Dijkstra Conn_Proof_Knn Conn_Proof_Sym.
 From TK Require Dijkstra_Model Dijkstra_Spec Dijkstra_Proof_Base Knn_Spec.
 Import ListNotations.
 
@@ -206,6 +206,21 @@ Theorem cc_from_c02 : forall d N (search : nat -> list (list Z)),
 Proof. exact main_cc_from_c02. Qed.
 Print Assumptions cc_from_c02.
 
+(* ---- why the unit tests never saw the old defect: on a symmetric neighbourhood graph the old
+        test (reachability from sample 0) and the current one agree ---- *)
+Theorem old_new_agree_if_symmetric : forall N nb,
+  0 < N -> wf_graph N nb -> uniform nb -> symmetric_graph nb ->
+  is_connected N nb = is_connected_fixed N nb.
+Proof. exact main_old_new_agree_if_symmetric. Qed.
+Print Assumptions old_new_agree_if_symmetric.
+
+(* ---- check_connectivity = false: the (clamped) k-lists are returned untouched ---- *)
+Theorem cc_off_keeps_k : forall (knn : nat -> graph) N fuel k,
+  find_neighbors is_connected_fixed knn N (S fuel) k false
+  = COk (Nat.min k (N - 1), knn (Nat.min k (N - 1))).
+Proof. exact main_cc_off. Qed.
+Print Assumptions cc_off_keeps_k.
+
 (* the boolean oracles the harness applies to the implementation's own output *)
 Theorem spec_oracles : forall N nb, 0 < N -> wf_b N nb = true ->
   (strong_b N nb = true <-> strongly_connected N nb) /\
@@ -245,3 +260,7 @@ Example hyps_c02_satisfiable : 1 <= 3 /\
   (forall k, k <= 3 - 1 -> length (c02_search k) = 3 /\
      forall i, i < 3 -> Knn_Spec.is_knn c02_d 3 (Z.of_nat i) k (nth i (c02_search k) [])).
 Proof. exact nv_c02. Qed.
+
+Example hyps_symmetric_satisfiable :
+  0 < 4 /\ wf_graph 4 sym4 /\ uniform sym4 /\ symmetric_graph sym4.
+Proof. exact nv_sym. Qed.
